@@ -289,6 +289,8 @@ def units(tier, seed):
         out.append(("toy", {"curve": "t23b", "qstep": 4, "digests": ["00", "a8"]}))
         out.append(("toy", {"curve": "t23a", "qstep": 7, "digests": ["38", "ff01"]}))
         out.append(("toy", {"curve": "t17x", "qstep": 1, "digests": ["00", "50", "f0"]}))
+        out.append(("toy", {"curve": "t13-legacy", "qstep": 3, "digests": ["00", "68", "f8"]}))
+        out.append(("toy", {"curve": "t17x-legacy", "qstep": 2, "digests": ["10", "a0"]}))
         out.append(("toy", {"curve": "t31x", "qstep": 5, "digests": ["08", "b8"]}))
     else:
         for part in range(16):
@@ -300,7 +302,8 @@ def units(tier, seed):
     names = gen.NAMED
     for nm in sorted(names, key=lambda x: -gen.dom(x).p):
         out.append(("constructed", {"names": [nm], "per": 6 if q else 80}))
-    out.append(("constructed", {"names": ["t23a", "t23b", "t251a", "t257", "t65521b"], "per": 40 if q else 400}))
+    out.append(("constructed", {"names": ["t23a", "t23b", "t251a", "t257", "t65521b", "t23a-legacy", "t251a-legacy"],
+                                "per": 40 if q else 400}))
     out.append(("x-ge-n", {"names": ["SECP112r2", "t23b", "t29", "t61", "t257", "t1021a", "t65537", "t17x", "t31x", "t101x"],
                            "count": 6 if q else 60}))
     out.append(("mutated", {"names": ["t23a", "t251a", "SECP112r1"] if q else
